@@ -17,6 +17,7 @@ const (
 
 func init() {
 	register("C15", func(c *core.Ctx, tier string) {
+		limitFailureReported(c, "C15.13")
 		skipEOFRefined(c, "C15.7b")
 		eofWithCompleteFrame(c, "C15.7c")
 		connReadEffects(c, "C15.10")
